@@ -139,3 +139,27 @@ Fixpoint reaches (fuel : nat) (from to : string) : bool :=
   end.
 Definition cyclic_locks : list string := filter (fun l => reaches (S (List.length all_locks)) l l) all_locks.
 Definition lock_order_ok : bool := match cyclic_locks with [] => true | _ => false end.
+
+(* ---------- explicit mutex actions of the entry points, for the deadlock-freedom theorem (C13/Deadlock.v) ---------- *)
+From VF Require Import C13.Deadlock.
+(* rank of a mutex = length of the longest chain of "held -> acquired" edges that ends in it *)
+Definition preds (l : string) : list string := map fst (filter (fun e => String.eqb (snd e) l) edges).
+Fixpoint chain (fuel : nat) (l : string) : nat :=
+  match fuel with
+  | O => O
+  | S f => fold_right (fun p m => Nat.max (S (chain f p)) m) O (preds l)
+  end.
+Definition lock_rank (l : string) : nat := chain (S (List.length all_locks)) l.
+(* every acquisition of an entry point, as its own critical section: take the mutexes held at that point in the
+   order the method took them, then the mutex itself; release in reverse order *)
+Definition lact := act string.
+Definition footprint (m : meth) : list lact :=
+  flat_map (fun q => map (fun h => Acq string (fst h)) (q_held q) ++ [Acq string (q_lock q); Rel string (q_lock q)] ++
+                     map (fun h => Rel string (fst h)) (rev (q_held q)))
+           (eff_acqs depth [] m).
+Definition footprints_ordered : bool :=
+  forallb (fun m => match runb string String.eqb lock_rank [] (footprint m) with Some [] => true | _ => false end) entries.
+(* "close" callbacks (a store telling its provider that it is gone) are made with no mutex held *)
+Definition callbacks_unlocked : bool :=
+  forallb (fun m => forallb (fun s => is_store_call s || match s_held s with [] => true | _ => false end)
+                            (eff_scalls depth [] m)) entries.
